@@ -58,6 +58,21 @@ def step (st : St) (line : String) : IO St := do
     return { st with p := p, pA := pA, radiiF := rF.map floatToRat, anglesF := aF.map floatToRat, outs := [], sample := sample,
                      stats := { st.stats with cases := st.stats.cases + 1 },
                      midpointPairs := st.midpointPairs + (if mid then 1 else 0), nonMidpointPairs := st.nonMidpointPairs + (if mid then 0 else 1) }
+  | "TRBIG" :: rest =>
+    let op := (kv rest "op").getD ""; let thr := (kv rest "threads").getD ""
+    let hexF := fun (k : String) => (Hex.parseFloat ((kv rest k).getD "")).getD 0.0
+    let dref := hexF "maxdiff_vs_reference"; let d1 := hexF "maxdiff_vs_1thread"; let scale := hexF "scale"
+    let tag := s!"op={op} threads={thr} nrF={(kv rest "nrF").getD ""} ntF={(kv rest "ntF").getD ""} ncF={(kv rest "ncF").getD ""} (fine grid above the 10 000-node parallelisation threshold, non-uniform radii and angles)"
+    let mut st := st
+    -- same weights, at most a different association of three or four products: 2^-40 relative is generous
+    if !(dref ≤ 1e-12 * (scale + 1e-300)) then
+      IO.println s!"ORACLE C08 optimised transfer differs from its reference implementation on the same input by {dref} (scale {scale}): {tag}"
+      st := { st with oracleFails := st.oracleFails + 1 }
+    if !(d1 ≤ 1e-12 * (scale + 1e-300)) then
+      IO.println s!"ORACLE C12 transfer result depends on the thread count beyond re-association ({d1} vs 1 thread, scale {scale}): {tag}"
+      st := { st with oracleFails := st.oracleFails + 1 }
+    let stats ← check st.stats true fun _ => ""
+    return { st with stats := stats }
   | "TR" :: rest =>
     let op := (kv rest "op").getD ""; let thr := (kv rest "threads").getD ""
     let kind := (kv rest "kind").getD ""
